@@ -63,6 +63,7 @@ def readAct : P ActKind
     else if t = "am" then some (.mayRaise, ts) else if t = "au" then some (.unknown, ts)
     else match t.toList with
       | 'a' :: 'v' :: ds => some (.viaItem (String.ofList ds).toNat!, ts)
+      | 'a' :: 'g' :: ds => some (.gate (String.ofList ds).toNat!, ts)
       | _ => none
   | [] => none
 
